@@ -8,6 +8,7 @@ import (
 	"net"
 	"sort"
 	"strings"
+	"sync"
 	"time"
 
 	"github.com/coredhcp/coredhcp/handler"
@@ -57,6 +58,11 @@ func genPool(rng *rand.Rand, plen int) string {
 }
 
 func (prefixEngine) Gen(rng *rand.Rand, tier string, i int) any {
+	if i%64 == 31 {
+		// slow-neighbour probe: a client with tens of thousands of leases sends a huge renewal while another
+		// client's plain request waits behind it
+		return &prefixCase{Pool: genPool(rng, 48), Alloc: 64, Clients: 2, Msgs: 0, Seed: rng.Int63(), Probe: "slow-neighbour"}
+	}
 	if i%64 == 63 {
 		// long-gap probe: a holder comes back after exactly 2^k-1, 2^k, 2^k+1 ... IA_PDs of other clients
 		return &prefixCase{Pool: genPool(rng, 56), Alloc: 64, Clients: 2, Msgs: 0, Seed: rng.Int63(), Probe: "gap"}
@@ -363,6 +369,73 @@ func (r *pdRun) exchange(data []byte, desc string) {
 	}
 }
 
+// slowNeighbourProbe: client S collects about 48 000 leases (22 messages of 2200 exact hints), then sends a
+// message with 2200 hints it does not hold; 20 ms into that message client T's plain SOLICIT arrives and has
+// to wait for the plugin. T's reply is like any other: lifetimes positive and at most one hour - however long
+// it waited. (Checked only when the slow message really took more than 0.6 s.)
+func (r *pdRun) slowNeighbourProbe() {
+	const per = 2200
+	mk := func(ci int, first int64, n int, outOfPool bool) []byte {
+		var sub []pkt.Opt6
+		for k := 0; k < n; k++ {
+			ip := r.blockAddr(first + int64(k))
+			if outOfPool {
+				ip = net.ParseIP(fmt.Sprintf("2001:db8:dead:%x::", k))
+			}
+			sub = append(sub, pkt.IAPrefix(0, 0, 64, ip, nil))
+		}
+		r.xid++
+		return pkt.Msg6(3, r.xid, []pkt.Opt6{pkt.O6(pkt.OptClientID6, r.duids[ci]), pkt.IAPD(1, 0, 0, sub)})
+	}
+	for m := 0; m < 22; m++ {
+		if rep, _, _ := one6(r.s, mk(0, int64(m*per), per, false)); rep == nil {
+			r.ctx.Viol("C08", "request-not-answered", "a REQUEST with %d in-pool hints got no reply", per)
+			return
+		}
+	}
+	slow := mk(0, 0, per, true)
+	r.xid++
+	plain := pkt.Msg6(1, r.xid, []pkt.Opt6{pkt.O6(pkt.OptClientID6, r.duids[1]), pkt.IAPD(7, 0, 0, nil)})
+	r.s.Take()
+	var wg sync.WaitGroup
+	wg.Add(2)
+	var tSlow time.Duration
+	go func() {
+		defer wg.Done()
+		t0 := time.Now()
+		r.s.l.Inject(slow, fakeIf, clientPeer6)
+		tSlow = time.Since(t0)
+	}()
+	time.Sleep(20 * time.Millisecond)
+	go func() { defer wg.Done(); r.s.l.Inject(plain, fakeIf, clientPeer6) }()
+	wg.Wait()
+	r.ctx.Count("prefix.slow_neighbour_probes", 1)
+	for _, cp := range r.s.Take() {
+		d, err := dhcpv6.FromBytes(cp.Payload)
+		if err != nil {
+			continue
+		}
+		m, err := d.GetInnerMessage()
+		if err != nil || m.Options.ClientID() == nil || string(m.Options.ClientID().ToBytes()) != string(r.duids[1]) {
+			continue
+		}
+		if tSlow < 600*time.Millisecond {
+			r.ctx.Count("prefix.slow_neighbour_not_slow_enough", 1)
+			r.ctx.Count("prefix.slow_neighbour_ms_total", tSlow.Milliseconds())
+			return
+		}
+		r.ctx.Count("prefix.slow_neighbour_waited_over_600ms", 1)
+		for _, pd := range decodeRepPDs(m) {
+			for _, p := range pd.Prefixes {
+				if !(p.Preferred > 0 && p.Preferred <= p.Valid && p.Valid <= time.Hour) {
+					r.ctx.Viol("C08", "lifetimes", "pool %s /%d: a SOLICIT that waited behind another client's %v-long message was answered with prefix %s preferred=%v valid=%v, want 0 < preferred <= valid <= 1h", r.c.Pool, r.c.Alloc, tSlow.Round(time.Millisecond), p, p.Preferred, p.Valid)
+				}
+			}
+		}
+	}
+	r.ctx.Nontrivial("C08", fmt.Sprintf("slow/%s/%d", r.c.Pool, r.c.Seed))
+}
+
 // gapProbe: client A is told it holds P, then other clients send exactly g IA_PDs (g around 2^8 and 2^16,
 // every value from g-2 to g+2), then A repeats its hint-less request: it must get P again, however many
 // exchanges the server has handled in between.
@@ -456,6 +529,10 @@ func (prefixEngine) Run(ctx *fw.Ctx, cs any) {
 	}
 	if c.Probe == "gap" {
 		r.gapProbe()
+		return
+	}
+	if c.Probe == "slow-neighbour" {
+		r.slowNeighbourProbe()
 		return
 	}
 	var last []byte
